@@ -100,7 +100,7 @@ fn vecspec() -> impl Strategy<Value = VecSpec> {
 }
 
 fn len_of(class: u8, jitter: u16, n: usize, allow_long: bool) -> usize {
-    let l = match class % 8 {
+    let l = match class % 12 {
         0 => 0,
         1 => 1,
         2 => n / 2,
@@ -108,6 +108,10 @@ fn len_of(class: u8, jitter: u16, n: usize, allow_long: bool) -> usize {
         4 => n,
         5 => n + 1,
         6 => 2 * n,
+        7 => 2 * n + 1,
+        8 => 3 * n,
+        9 => 5 * n + 3,
+        10 => pick(jitter, 6 * n + 1),
         _ => pick(jitter, 2 * n + 1),
     };
     if allow_long {
@@ -149,7 +153,7 @@ fn log_n_strategy(t: Tier) -> BoxedStrategy<u32> {
 fn fft_case(t: Tier) -> BoxedStrategy<FftCase> {
     (
         log_n_strategy(t),
-        0u8..8,
+        0u8..12,
         any::<u16>(),
         vecspec(),
         any::<bool>(),
@@ -936,7 +940,7 @@ pub fn props() -> Vec<(Box<dyn PropDyn>, u32, u32)> {
 }
 
 pub fn describe(ctx: &Ctx) {
-    ctx.rule("cases: generated (domain 2^0..2^13 quick / 2^14 thorough, length classes {0,1,n/2,n-1,n,n+1,2n,random}, vectors random/zero/trailing-zero/sparse/small with boundary overrides, pools global and 1..=17; polynomial op programs; inversion vectors; closed-form points inside/outside the domain); non-trivial = domain size >= 2 and a non-zero vector (fft/ifft), some polynomial of degree >= 1 (poly), >= 2 entries not all zero (batch inversion), n >= 2 (closed forms); distinct by hash of the full case");
+    ctx.rule("cases: generated (domain 2^0..2^13 quick / 2^14 thorough, length classes {0,1,n/2,n-1,n,n+1,2n,2n+1,3n,5n+3,random up to 6n}, vectors random/zero/trailing-zero/sparse/small with boundary overrides, pools global and 1..=17; polynomial op programs; inversion vectors; closed-form points inside/outside the domain); non-trivial = domain size >= 2 and a non-zero vector (fft/ifft), some polynomial of degree >= 1 (poly), >= 2 entries not all zero (batch inversion), n >= 2 (closed forms); distinct by hash of the full case");
     ctx.assume("oracles are O(n^2) textbook definitions written in the harness over dusk-bls12_381 field arithmetic (trusted)");
     ctx.assume("inverse transforms are only generated with length <= domain size (longer evaluation vectors have no mathematical meaning)");
     ctx.assume("the fused verifier evaluation may return an error exactly at tau = 1 or tau on a non-zero public-input row (documented behaviour)");
